@@ -11,7 +11,7 @@ HEADER = ("From Coq Require Import ZArith List.\n"
 CASE_T = "C09.Corr.case"
 PROPS = ["C09/Props.v"]
 CLAUSE = {1: "failed-op-changed-hooks", 2: "not-restored-after-balanced-removal", 3: "call-count",
-          4: "extra-unregister-did-not-raise", 5: "weakref-still-alive", 6: "change-raised",
+          4: "extra-unregister-did-not-raise", 5: "weakref-still-alive", 6: "change-raised", 8: "handler-left-attached-after-its-removals",
           7: "pool-kept-alive"}
 CORR = {1: "outcome-class", 2: "handler-calls", 3: "notifier-lists"}
 
@@ -399,6 +399,14 @@ def gen_dyn_case(rnd, ctx, maxlen):
                 op = mk_reg("Unreg", 0, rnd.choice(live_h), rnd.randint(0, 2), rnd.choice(graphsets))
         elif r < 0.62:
             op = ["Change", rnd.randrange(n), FNUM[rnd.choice(["value", "value2"])]]
+        elif r < 0.65:
+            meths = [x for x in live_h if handlers[x] == "meth"]
+            if not meths or len(live_h) < 2:
+                continue
+            hd = rnd.choice(meths)
+            live_h.remove(hd)
+            regs = [x for x in regs if x[2] != hd]
+            op = ["CollectOwner", hd]
         else:
             i = rnd.choice([0, 0] + list(range(n - 1)))
             hi = list(range(i + 1, n))
